@@ -981,7 +981,8 @@ pub fn run(ctx: &Ctx, rep: &mut Report) {
     let mut stats = Stats::default();
     let mut failures: Vec<(String, String, Value)> = vec![];
     let mut crash_budget = 400usize;
-    let watchdog = Duration::from_secs(6);
+    // no progress for this long = suspected hang (a decode takes microseconds; the margin is for a starved machine)
+    let watchdog = Duration::from_secs(20);
     while !children.is_empty() {
         std::thread::sleep(Duration::from_millis(20));
         let mut i = 0;
@@ -1038,6 +1039,14 @@ pub fn run(ctx: &Ctx, rep: &mut Report) {
             }
             // abnormal end: the inflight input is the suspect
             let Some((case_idx, _, input)) = read_inflight(&c.inflight) else {
+                // stopped by the watchdog before its first input (a starved machine): start that share again
+                if hung && crash_budget > 0 {
+                    crash_budget -= 1;
+                    rep.notes.push(format!("worker {} made no progress before its first input and was restarted (machine busy)", c.k));
+                    let _ = std::fs::remove_file(&c.inflight);
+                    children.push(spawn(c.k, c.seed, c.start, c.remaining, muts, &skip_labels));
+                    continue;
+                }
                 rep.notes.push(format!("worker {} died without an inflight record: {}", c.k, se.lines().last().unwrap_or("")));
                 rep.infra_errors += 1;
                 continue;
@@ -1047,19 +1056,19 @@ pub fn run(ctx: &Ctx, rep: &mut Report) {
             if !failures.iter().any(|(s, _, _)| *s == sig) {
                 // confirm in a fresh process (three times for hangs: timing is only trusted when it repeats)
                 let confirmed = if kind == "hang" {
-                    (0..3).all(|_| matches!(confirm_in_child(&input, Duration::from_secs(6)), Some((ref s, _)) if s == "hang"))
+                    (0..3).all(|_| matches!(confirm_in_child(&input, watchdog), Some((ref s, _)) if s == "hang"))
                 } else {
                     confirm_in_child(&input, Duration::from_secs(60)).is_some()
                 };
                 if confirmed {
                     failures.push((sig, format!("worker process ended abnormally while decoding a {}-byte frame: {detail}", input.frame_hex.len() / 2), serde_json::to_value(&input).unwrap()));
+                    // exclude the confirmed finding's input class by construction so that the search continues behind it
+                    if !skip_labels.contains(&input.label) {
+                        skip_labels.push(input.label.clone());
+                    }
                 } else {
                     rep.notes.push(format!("unconfirmed abnormal worker end ({kind}) — treated as infrastructure noise"));
                 }
-            }
-            // exclude the confirmed finding's input class by construction so that the search continues behind it
-            if !skip_labels.contains(&input.label) {
-                skip_labels.push(input.label.clone());
             }
             stats.evaluations += 1;
             // continue the campaign behind the crashing case
